@@ -42,7 +42,7 @@ pub static SPEC: Spec = Spec {
 pub static SPEC_C07: Spec = Spec {
     id: "C07",
     level: "fault_enumeration",
-    fixed_cases: |t| n_chunks07(t) + directed().len() as u64,
+    fixed_cases: |t| n_chunks07(t) + directed().len() as u64 + crate::props::c02r::N_REPLICA_FIXED,
     random_secs: |t| t.pick(15, 240),
     random_cap: |t| t.pick(100_000, 3_000_000),
     run_case: |ctx, id| run_case(ctx, id, Mode::Tear { random_cuts: if ctx.tier == Tier::Quick { 8 } else { 64 } }),
@@ -58,6 +58,7 @@ pub static SPEC_C07: Spec = Spec {
         "torn:bitfield",
         "torn:tree",
         "torn:data",
+        "replica_crash_points",
     ],
     rule: "as C02, but for every crash point whose next operation is a write a byte prefix of that write is applied before reopening: every proper prefix for writes <= 64 bytes, otherwise framing boundaries (1,3,4,5,7,8,9,... bytes, len-1, 512-byte sector edges, 40-byte node edges for tree writes) plus seeded-random cuts; evaluations = (crash point, cut) pairs",
     assumptions: &[
@@ -178,8 +179,8 @@ fn run_case(ctx: &mut Ctx, id: u64, mode: Mode) {
         return;
     }
     let ri = di - d.len();
-    if !is07 && (ri as u64) < crate::props::c02r::N_REPLICA_FIXED {
-        crate::props::c02r::replica_case(ctx, ri as u64, &mut r);
+    if (ri as u64) < crate::props::c02r::N_REPLICA_FIXED {
+        crate::props::c02r::replica_case_mode(ctx, ri as u64, &mut r, mode);
         return;
     }
     // seeded random
@@ -199,8 +200,8 @@ fn run_case(ctx: &mut Ctx, id: u64, mode: Mode) {
     }
     ctx.count("random_histories");
     let ks = r.next_u64();
-    if !is07 && r.chance(1, 4) {
-        crate::props::c02r::replica_case(ctx, 1000 + id, &mut r);
+    if r.chance(1, 4) {
+        crate::props::c02r::replica_case_mode(ctx, 1000 + id, &mut r, mode);
     } else {
         crash_history(ctx, &ops, ks, mode, &mut r);
     }
